@@ -108,6 +108,14 @@ Theorem silent_upstream_settled_by_establishment_timeout :
 Proof. intros est other. reflexivity. Qed.
 Print Assumptions silent_upstream_settled_by_establishment_timeout.
 
+(* and for the connection and UDP ASSOCIATE dialogue that every new client source of an open UDP multiplexer needs with a
+   SOCKS5 upstream (socks5_forwarder.rs on_new_udp_connection, awaited by the only task that forwards that client's
+   datagrams): a server that never answers is given the establishment timeout, then the attempt is dropped *)
+Theorem silent_association_settled_by_establishment_timeout :
+  forall est other, establish UDP_ASSOCIATE_UNDER_ESTABLISHMENT_TIMEOUT est other None = EFailed est.
+Proof. intros est other. reflexivity. Qed.
+Print Assumptions silent_association_settled_by_establishment_timeout.
+
 (* the same race for the TLS handshake of the real listener: a peer that never completes its ClientHello
    (or never sends one) is dropped when the handshake timeout expires *)
 Theorem stalled_handshake_dropped_by_handshake_timeout :
@@ -143,7 +151,8 @@ Proof. split; reflexivity. Qed.
    the TLS accept in tls_handshake_timeout (expiry -> connection dropped), and runs the pipe with
    tcp_connections_timeout; dropping the futures releases the sockets they own *)
 Theorem establishment_timeouts_in_place :
-  CONNECT_UNDER_ESTABLISHMENT_TIMEOUT = true /\ MUX_AUTH_UNDER_ESTABLISHMENT_TIMEOUT = true /\ TIMEOUT_REPORTED_AS_502_302 = true
+  CONNECT_UNDER_ESTABLISHMENT_TIMEOUT = true /\ MUX_AUTH_UNDER_ESTABLISHMENT_TIMEOUT = true /\ UDP_ASSOCIATE_UNDER_ESTABLISHMENT_TIMEOUT = true
+  /\ TIMEOUT_REPORTED_AS_502_302 = true
   /\ TLS_ACCEPT_UNDER_HANDSHAKE_TIMEOUT = true /\ PIPE_RUN_WITH_TCP_TIMEOUT = true
   /\ PIPE_EXPIRY_AS_MODELLED = true /\ PIPE_AWAITS_AS_MODELLED = true
   /\ LISTENER_TIMEOUT_SPARES_ACTIVE_SESSIONS = true /\ CLIENT_HELLO_UNDER_HANDSHAKE_TIMEOUT = true
